@@ -143,6 +143,35 @@ def check(an: Analysis) -> None:
             raw = unwrap(c.args[2])
             inner = unwrap(raw.args[0]) if isinstance(raw, ast.Call) and len(raw.args) == 1 else (unwrap(v.args[0]) if len(v.args) == 1 else None)
             ok = is_kwarg_lookup(init, Deps(prog, init), inner, kwn_, names[0]) or is_kwarg_lookup(init, Deps(prog, init), unwrap(v.args[0]) if len(v.args) == 1 else None, kwn_, names[0])
+        if not ok and len(names) == 2 and len(c.args) == 3:
+            # `validated` written out in place: value = kwargs.get(name, MISSING); if value is MISSING: value = attribute.default;
+            # store attribute.validator(value)
+            raw = unwrap(c.args[2])
+            if isinstance(raw, ast.Call) and isinstance(raw.func, ast.Attribute) and raw.func.attr == "validator" and is_name(raw.func.value, names[1]) and len(raw.args) == 1 and not raw.keywords and isinstance(unwrap(raw.args[0]), ast.Name) and loop is not None:
+                vn = unwrap(raw.args[0]).id
+                kwn_ = init.node.args.kwarg.arg if init.node.args.kwarg else ""
+                dinit_ = Deps(prog, init)
+                body_ = [x for x in loop.body if not (isinstance(x, ast.Expr) and isinstance(x.value, ast.Constant))]
+                binds = [x for x in ast.walk(loop) if isinstance(x, ast.Name) and x.id == vn and isinstance(x.ctx, ast.Store)]
+                first = body_[0] if body_ else None
+                second = body_[1] if len(body_) > 1 else None
+                t1 = first.targets[0] if isinstance(first, ast.Assign) and len(first.targets) == 1 else (first.target if isinstance(first, ast.AnnAssign) and first.value is not None else None)
+                looked_up = is_name(t1, vn) and is_kwarg_lookup(init, dinit_, unwrap(first.value), kwn_, names[0])  # type: ignore[union-attr]
+                tst = second.test if isinstance(second, ast.If) else None
+                guarded = (
+                    isinstance(second, ast.If)
+                    and not second.orelse
+                    and isinstance(tst, ast.Compare)
+                    and len(tst.ops) == 1
+                    and isinstance(tst.ops[0], ast.Is)
+                    and is_name(tst.left, vn)
+                    and "MISSING" in (dotted(tst.comparators[0]) or "")
+                    and len(second.body) == 1
+                    and isinstance(second.body[0], (ast.Assign, ast.AnnAssign))
+                    and is_name(second.body[0].targets[0] if isinstance(second.body[0], ast.Assign) else second.body[0].target, vn)
+                    and dotted(unwrap(second.body[0].value)) == f"{names[1]}.default"
+                )
+                ok = bool(looked_up and guarded and len(binds) == 2 and any(c is x for x in ast.walk(body_[2])) if len(body_) == 3 else False)
         if not ok:
             ob.fail(init, c, "an attribute is stored without going through attribute.validated(<the value supplied under its own name>)")
     for n in [n for n in init.own_nodes() if isinstance(n, (ast.Try, ast.With))]:
